@@ -509,8 +509,48 @@ PLANS["C15"] = dict(cases=c15_cases, l1=l1(dict(family="deps", invariants=["Inv_
 PLANS["C17"] = dict(cases=c17_cases, l1=l1(dict(family="deps", invariants=["Inv_C17"])))
 PLANS["C18"] = dict(cases=c18_cases, l1=l1(dict(family="abs", invariants=["Inv_C18"]), dict(family="placeflat", invariants=["Inv_C18"])))
 PLANS["C16"] = dict(cases=c16_cases)
+def _hist_op(o):
+    """A history operation exported by spec/PdesyHist.tla -> the harness's op format."""
+    k = o["op"]
+    if k == "simulate":
+        opts = {"absL": list(o["absL"])}
+        if o["maxTime"] >= 0:
+            opts["maxTime"] = o["maxTime"]
+        return {"op": "simulate", "opts": opts, "initState": o["initState"], "initLog": o["initLog"], "light": True}
+    if k == "initialize":
+        return {"op": "initialize", "state": o["state"], "log": o["log"]}
+    if k == "backward":
+        return {"op": "backward", "due": o["due"], "reverse": o["reverse"], "light": True}
+    if k == "insert_absence":
+        return {"op": "insert_absence", "L": list(o["L"])}
+    return {"op": k}
+
+
+def tlc_hist_cases(family, base_fams, nbase_q=3, nbase_t=12):
+    """Every operation history TLC enumerates from spec/PdesyHist.tla, replayed on base models."""
+    def cases(tier, seed):
+        t = 1 if tier == "quick" else 2
+        hists = families.export_family(family, t, module="PdesyHist")
+        rng = _random.Random(seed + 88)
+        bases = []
+        for f in base_fams:
+            allc = families.export_family(f, 1)
+            bases += rng.sample(allc, nbase_q if tier == "quick" else nbase_t)
+        bases += _rand(tier, seed + 3, 1, 8, "B")
+        if tier != "quick" and len(hists) > 6000:
+            hists = rng.sample(hists, 6000)
+        out = []
+        for bi, cfg in enumerate(bases):
+            for h in hists:
+                out.append(_hist(dict(cfg, id="%s.b%d" % (h["id"], bi)), "h", [_hist_op(o) for o in h["ops"]]))
+        return out
+    return cases
+
+
 PLANS["C05"]["cases"] = both(PLANS["C05"]["cases"], c05_maxtime_cases)
-PLANS["C08"]["cases"] = both(PLANS["C08"]["cases"], c08_hist_cases, unit2_cases())
+PLANS["C08"]["cases"] = both(PLANS["C08"]["cases"], c08_hist_cases, unit2_cases(),
+                               tlc_hist_cases("histC08", ["deps", "placeflat"], 1, 6))
+PLANS["C18"]["cases"] = both(PLANS["C18"]["cases"], tlc_hist_cases("histC18", ["abs", "placeflat"], 1, 6))
 PLANS["C10"]["cases"] = both(PLANS["C10"]["cases"], c10_hist_cases)
 UNREGISTERED |= set()
 
